@@ -78,7 +78,7 @@ def _walk_types(T):
         elif tag in ("utuple", "ustar"):
             for e in T[1] + [T[2]] + T[3]:
                 yield from _walk_types(e)
-        elif tag in ("newtype", "fwd", "tvarc", "tvarb"):
+        elif tag in ("newtype", "fwd", "tvarc", "tvarb", "stype"):
             yield from _walk_types(T[2])
         elif tag in ("enum", "flag", "literal", "text"):
             return
